@@ -228,7 +228,8 @@ def raise_guard(stmts, after_pred, what):
                 cls = exc.func.id if isinstance(exc, ast.Call) and isinstance(exc.func, ast.Name) else exc.id if isinstance(exc, ast.Name) else None
                 if cls is None:
                     raise Unclassified(f"{what}: guard raises {src(exc)}")
-                return f"{src(nxt.test)}:{cls}"
+                from .normalize import nnf
+                return f"{src(nnf(nxt.test))}:{cls}"  # guards are compared as text: in negation normal form
             return ""
     raise Unclassified(f"{what}: anchor statement not found")
 
